@@ -52,6 +52,31 @@ fn main() {
                     std::process::exit(2);
                 }
             },
+            Some("determinism") => {
+                // every property profile: the same (seed, index) must give the same history hash
+                // whichever worker thread runs it, with 1 and with N workers, and in any process
+                // (the printed digest is compared across processes by tools/determinism.sh)
+                let n: u64 = flag("--n").and_then(|s| s.parse().ok()).unwrap_or(300);
+                let props = ["C01", "C02", "C03", "C04", "C05", "C06", "C07", "C08", "C09", "C10", "C11", "C12", "C13", "C14", "C15", "C16", "C17"];
+                let mut total = posim::rng::Fnv::default();
+                let mut bad = 0u64;
+                for p in props {
+                    let one = posim::check::digests(p, seed, n, 1);
+                    let many = posim::check::digests(p, seed, n, threads.max(2));
+                    let again = posim::check::digests(p, seed, n, 3);
+                    let mism = one.iter().zip(many.iter()).zip(again.iter()).filter(|((a, b), c)| a != b || a != c).count() as u64;
+                    bad += mism;
+                    use std::hash::{Hash, Hasher};
+                    one.hash(&mut total);
+                    println!("{p}: {n} scenarios x 3 executions (1, {}, 3 workers): {mism} mismatches, digest {:016x}", threads.max(2), posim::rng::fnv_of(&one));
+                }
+                use std::hash::Hasher;
+                println!("DIGEST seed={seed} n={n} {:016x}", total.finish());
+                if bad > 0 {
+                    eprintln!("harness error: {bad} nondeterministic executions");
+                    std::process::exit(2);
+                }
+            }
             _ => usage(),
         },
         _ => usage(),
